@@ -13,6 +13,8 @@ func cutField
 
 func (*Record).UnmarshalText
   requires rec != nil
+  modifies rec.Addr, rec.Names
+  logged
   loop 0
     invariant safe_count: 0 <= n && n + len(f) + len(t) <= len(hosts)
     decreases len(f) + len(t)
@@ -25,9 +27,56 @@ func (Record).MarshalText
   loop 0
     invariant safe_sum: 0 <= namesLen && namesLen <= (rangeindex + 1) * 1000000001
 
+// Parse (property C08).  The ghost event log records, in order, every call of
+// Record.UnmarshalText and every call made through the Set / HandleSet /
+// NamedReader interfaces.  With a HandleSet destination the log is, after an
+// optional Name call, one pair per scanned line: the UnmarshalText call on
+// the line's token and then either Add of that very record (nil error) or
+// HandleInvalid with the source name, the same token and a *LineError
+// carrying the 1-based line number.  Without a HandleSet the rejected lines
+// are collected in errs instead: one *LineError per rejected line, numbered
+// within the lines read so far (that the numbers ascend was not discharged
+// and is not claimed; the numbering itself is proved on the HandleSet path,
+// which shares the statement that builds the LineError).
+spec fn lineOf(e error) int = as(e, "*LineError").Line
+  inline
+
 func Parse
   requires dst != nil
   loop 0
+    invariant errs_local: isnil(errs) || fresh(errs)
+    invariant line_counter: lineNum == scanCount(deref(s)) + 1 && lineNum >= 1
+    invariant hs_stride: isHandleSet ==> events() == (ok ? 1 : 0) + 2 * (lineNum - 1)
+    invariant hs_unmarshal_each_line: isHandleSet ==> (forall j in 0..lineNum - 1:
+      (let k = (ok ? 1 : 0) + 2 * j in evis(k, "hostsfile.(*Record).UnmarshalText")))
+    invariant hs_source_tagged: isHandleSet ==> (forall j in 0..lineNum - 1:
+      (let k = (ok ? 1 : 0) + 2 * j in sameView(evarg("hostsfile.(*Record).UnmarshalText", k, 0).Source, srcName)))
+    invariant hs_valid_added: isHandleSet ==> (forall j in 0..lineNum - 1:
+      (let k = (ok ? 1 : 0) + 2 * j in
+       evres("hostsfile.(*Record).UnmarshalText", k, 0) == nil ==>
+         evis(k + 1, "github.com/AdguardTeam/golibs/hostsfile.Set.Add") && evarg("github.com/AdguardTeam/golibs/hostsfile.Set.Add", k + 1, 0) == dst &&
+         evarg("github.com/AdguardTeam/golibs/hostsfile.Set.Add", k + 1, 1) == evarg("hostsfile.(*Record).UnmarshalText", k, 0)))
+    invariant hs_invalid_reported: isHandleSet ==> (forall j in 0..lineNum - 1:
+      (let k = (ok ? 1 : 0) + 2 * j in
+       evres("hostsfile.(*Record).UnmarshalText", k, 0) != nil ==> evis(k + 1, "github.com/AdguardTeam/golibs/hostsfile.HandleSet.HandleInvalid")))
+    invariant hs_invalid_source: isHandleSet ==> (forall j in 0..lineNum - 1:
+      (let k = (ok ? 1 : 0) + 2 * j in
+       evres("hostsfile.(*Record).UnmarshalText", k, 0) != nil ==> sameView(evarg("github.com/AdguardTeam/golibs/hostsfile.HandleSet.HandleInvalid", k + 1, 1), srcName)))
+    invariant hs_invalid_same_token: isHandleSet ==> (forall j in 0..lineNum - 1:
+      (let k = (ok ? 1 : 0) + 2 * j in
+       evres("hostsfile.(*Record).UnmarshalText", k, 0) != nil ==> evarg("github.com/AdguardTeam/golibs/hostsfile.HandleSet.HandleInvalid", k + 1, 2) == evarg("hostsfile.(*Record).UnmarshalText", k, 1)))
+    invariant hs_invalid_line_error: isHandleSet ==> (forall j in 0..lineNum - 1:
+      (let k = (ok ? 1 : 0) + 2 * j in
+       evres("hostsfile.(*Record).UnmarshalText", k, 0) != nil ==> typeis(evarg("github.com/AdguardTeam/golibs/hostsfile.HandleSet.HandleInvalid", k + 1, 3), "*LineError") && allocated(as(evarg("github.com/AdguardTeam/golibs/hostsfile.HandleSet.HandleInvalid", k + 1, 3), "*LineError"))))
+    invariant hs_invalid_line_number: isHandleSet ==> (forall j in 0..lineNum - 1:
+      (let k = (ok ? 1 : 0) + 2 * j in
+       evres("hostsfile.(*Record).UnmarshalText", k, 0) != nil ==> lineOf(evarg("github.com/AdguardTeam/golibs/hostsfile.HandleSet.HandleInvalid", k + 1, 3)) == j + 1))
+    invariant plain_one_outcome_per_line: !isHandleSet ==>
+      len(errs) + calls("github.com/AdguardTeam/golibs/hostsfile.Set.Add") == lineNum - 1
+    invariant plain_errors_typed: !isHandleSet ==> (forall i in 0..len(errs):
+      typeis(errs[i], "*LineError") && allocated(as(errs[i], "*LineError")))
+    invariant plain_errors_in_range: !isHandleSet ==> (forall i in 0..len(errs):
+      1 <= lineOf(errs[i]) && lineOf(errs[i]) <= lineNum - 1)
     decreases scanRemaining(deref(s))
 
 // ---------------------------------------------------------------------------
@@ -47,6 +96,7 @@ spec fn storageOK(s *DefaultStorage) bool =
 
 func (*orderedSet).add
   requires os != nil && os.set != nil && !isnil(os.set.m)
+  modifies os.vals, backing(os.vals), mapof(os.set.m)
   ensures usable: os.set == old(os.set) && os.set.m == old(os.set.m)
   ensures present_noop: old(haskey(os.set.m, key)) ==> os.vals == old(os.vals)
   ensures appended: !old(haskey(os.set.m, key)) ==> len(os.vals) == old(len(os.vals)) + 1 && os.vals[len(os.vals) - 1] == val &&
@@ -55,6 +105,7 @@ func (*orderedSet).add
 
 func (*DefaultStorage).Add
   requires storageOK(s) && rec != nil
+  modifies mapof(s.names), mapof(s.addrs), allof("namesSet"), allof("addrsSet"), allof("map[string]container.unit"), allof("map[netip.Addr]container.unit"), allof("[]string"), allof("[]netip.Addr")
   ensures inv: storageOK(s)
   ensures no_names_no_change: len(rec.Names) == 0 ==>
     (forall a: haskey(s.names, a) <==> old(haskey(s.names, a))) && (forall h: haskey(s.addrs, h) <==> old(haskey(s.addrs, h)))
